@@ -53,6 +53,35 @@ CLAIMED.update({
             'Equality of evaluator and run-time results is not decided (asking the evaluator would be execution).',
             'Trusts clang 14 AST of the instantiated templates; std:: bodies are leaves judged by their constexpr specifier; C++20/2b with std::allocator and literal element types.',
             'DESIGN.md section 6 C08'),
+    'C12': ('other', 'allocation-size provenance and guard entailment along IR paths; narrowing-conversion guard rule',
+            'Every allocation request is bounded by a length_error guard (difference-constraint matching on path conditions, no solver); '
+            'thrown types; no unguarded narrowing of caller-supplied lengths for narrow size_type.',
+            'Trusts max_size() stability and size() <= max_size() on entry; clang IR lowering.',
+            'DESIGN.md section 6 C12'),
+    'C10': ('other', 'guard-commit agreement on complete IR paths of the public operations (helpers expanded), erase-family effect freedom',
+            'Reallocation only with path evidence capacity < resulting size; in-place growth only with evidence it fits; erase/pop_back/clear '
+            'never touch storage words or the allocator; one allocation per path.',
+            'Trusts the entry invariant size <= capacity; linear-atom matching of path conditions (no solver); summary bound.',
+            'DESIGN.md section 6 C10'),
+    'C14': ('other', 'growth law by path-wise entailment on the committed capacity term',
+            'Structural whole: committed capacity is 2 x old, a larger required size, or max_size, and covers the committed size, on every '
+            'reallocating path of the growing operations.',
+            'Trusts max_size() stability; complexity consequences are argued, not measured.',
+            'DESIGN.md section 6 C14'),
+    'C11': ('other', 'use-after-clobber typestate for lvalue element parameters over LLVM IR paths',
+            'Structural whole: the aliasing argument is never read after existing elements or their storage were disturbed, on any path of the listed operations.',
+            'Trusts the may-effect summaries of opaque callees (element move/assign/destroy reachability) and the raw-storage classification.',
+            'DESIGN.md section 6 C11'),
+    'C13': ('other', 'trait grid vs conversion oracle and twin-agreement compile batteries (two compilers, all standards); raw-copy extent rule over IR',
+            'Necessary structural conditions: byte-copy traits admit only representation-preserving conversions and contiguous iterators; '
+            'shortcuts add no requirement (twin agreement); converting contiguous ranges are accepted wherever the generic path is.',
+            'Trusts the oracle table ([conv], Itanium ABI, self-checked platform facts) and g++/clang++ well-formedness verdicts.',
+            'DESIGN.md section 6 C13'),
+    'C20': ('other', 'static parsing of prettyprinter.py (ast) and natvis (xml) resolved against clang debug-info record layouts and -O2 observer normal forms',
+            'Member paths and regexes used by the shipped visualisers resolve, in every instantiation of the corpus, to the same field '
+            'offsets/widths that size(), capacity(), data() and iterator dereference load; natvis conditions match inlined(). The text GDB prints is not decided.',
+            'Trusts GDB\'s documented Value/Type lookup semantics, clang DWARF, LLVM -O2 as normaliser.',
+            'DESIGN.md section 6 C20'),
 })
 
 NOT_APPLICABLE = {
@@ -99,7 +128,13 @@ def main():
         'engines': [
             {'name': 'svwitness', 'path': 'svlib/witness.py', 'serves_properties': ['C19', 'C18', 'C13', 'C07', 'C16', 'C17'],
              'kind_free_text': 'compile-pass/compile-fail batteries under g++ and clang++, -fsyntax-only'},
-            {'name': 'svir', 'path': 'svlib/ir.py', 'serves_properties': [],
+            {'name': 'svnorm', 'path': 'svlib/norm.py', 'serves_properties': ['C02', 'C16', 'C20'],
+             'kind_free_text': 'observer normal forms: -O2 LLVM IR of loop-free observers reduced to expressions over the three data words'},
+            {'name': 'svartifact', 'path': 'svlib/artifact.py', 'serves_properties': ['C20', 'C18'],
+             'kind_free_text': 'parsers for README brief, GDB pretty-printer (python ast) and natvis (xml)'},
+            {'name': 'svconst', 'path': 'plugin/svconst.cc', 'serves_properties': ['C08'],
+             'kind_free_text': 'clang 14 AST plugin: reachability under std::is_constant_evaluated() over instantiated templates'},
+            {'name': 'svir', 'path': 'svlib/sym.py', 'serves_properties': ['C02', 'C03', 'C04', 'C05', 'C06', 'C07', 'C09', 'C10', 'C11', 'C12', 'C14', 'C15', 'C16', 'C18'],
              'kind_free_text': 'LLVM-IR path/typestate analyser over instantiated probe TUs'},
         ],
         'checks': checks,
